@@ -176,6 +176,7 @@ class Gen:
         self.addr = 0
         self.s = []
         self.src_on = False
+        self.tainted = False
 
     # ---- primitives -----------------------------------------------------------------------------
     def emit(self, *acts):
@@ -373,12 +374,10 @@ class Gen:
                     self.in0(ack=False)
                     return
             self.in0()
-            if cls == "unsup" and s8[1] == 1 and (s8[0] >> 5) & 3 == 0 and self.bulk:
-                # (carve-out C07) the stalled CLEAR_FEATURE leaves the standard handler waiting for *any* host ACK
-                if not self.src_on:
-                    self.src_on = True
-                    self.emit({"a": "src", "en": 1})
-                self.emit(tok("IN", self.addr, 1), ACK)
+            if cls == "unsup" and s8[1] == 1 and (s8[0] >> 5) & 3 == 0:
+                # (carve-out C07) a STALLed CLEAR_FEATURE leaves the standard handler in its state: whatever
+                # standard request follows is mishandled, so a clean behaviour ends here
+                self.tainted = True
             if cls == "sup" and s8[1] == 5:
                 old, self.addr = self.addr, s8[2] & 0x7F
                 if r.random() < 0.7:             # probe both addresses
@@ -402,6 +401,8 @@ def gen_clean(rng, prop, desc_len, max0, n_transfers):
         g.src_on = True
     noise = {"C06": 0.35, "C07": 0.35, "C08": 0.3, "C10": 0.15, "C20": 0.5}[prop]
     for _ in range(n_transfers):
+        if g.tainted:
+            return g.s + [{"a": "idle", "n": 30}]
         x = r.random()
         if prop == "C06" and x < 0.5:
             # a SETUP that must be refused / is lost, then (after a token that is not a SETUP) a good one
@@ -449,6 +450,8 @@ def gen_clean(rng, prop, desc_len, max0, n_transfers):
                                                                  "bulk_out", "none_ep", "junk", "long_bad"])
         if r.random() < 0.08:
             g.reset()
+    if g.tainted:
+        return g.s + [{"a": "idle", "n": 30}]
     return g.s + sanity(g.addr, cfg_probe=r.random() < 0.5)
 
 
@@ -551,7 +554,7 @@ def aligned_scripts(prop, desc_len, max0, distances=QUICK_DISTANCES):
         sc["vendor-out"] = ([tok("SETUP", 0, 0), dat("DATA0", VO), tok("OUT", 0, 0), dat("DATA1", [1, 2]), tok("IN", 0, 0)], 0)
         sc["std-unimplemented"] = ([tok("SETUP", 0, 0), dat("DATA0", S(0x81, 10, 0, 0, 1)), tok("IN", 0, 0)], 0)
         sc["clear-feature-device"] = ([on, tok("SETUP", 0, 0), dat("DATA0", S(0, 1, 1, 0, 0)), tok("IN", 0, 0), tok("IN", 0, 1),
-                                       dict(ACK)], 0)
+                                       dict(ACK), tok("IN", 0, 0)], None)      # (no sanity: see finding C07)
         sc["early-status"] = ([tok("SETUP", 0, 0), dat("DATA0", VI), tok("OUT", 0, 0), dat("DATA1", [])], 0)
     if prop == "C20":
         sc["read"] = (rd(0, GS), 0)
@@ -563,7 +566,7 @@ def aligned_scripts(prop, desc_len, max0, distances=QUICK_DISTANCES):
     out = []
     for name, (body, a_end) in sc.items():
         for d in distances:
-            out.append(("%s@d=%d" % (name, d), spaced(body, d) + sanity(a_end)))
+            out.append(("%s@d=%d" % (name, d), spaced(body, d) + (sanity(a_end) if a_end is not None else [])))
     # stalls in front of every byte of every short device packet, gaps in front of every byte of short host packets
     if prop in ("C20", "C07", "C06"):
         shapes = [("setup-ack", [tok("SETUP", 0, 0), dat("DATA0", VN)], 1, 1),
